@@ -59,7 +59,7 @@ pub fn validate(p: &Program) -> bool {
             EKind::Int(_) | EKind::Float(_) | EKind::Str(_) | EKind::Bool(_) | EKind::MaybeNone | EKind::Raw(_) => true,
             EKind::Var(v) => scope.contains(v) || globals.contains(v),
             EKind::Bin(_, a, b) | EKind::AssertEq(a, b) => expr(a, scope, globals) && expr(b, scope, globals),
-            EKind::Neg(a) | EKind::Not(a) | EKind::Field(a, _) | EKind::TupleIdx(a, _) | EKind::MaybeJust(a) => {
+            EKind::Neg(a) | EKind::Not(a) | EKind::Field(a, _) | EKind::TupleIdx(a, _) | EKind::MaybeJust(a) | EKind::Mark(a) => {
                 expr(a, scope, globals)
             }
             EKind::If(bs, d) => {
@@ -312,7 +312,7 @@ impl<'a> Mut<'a> {
     }
 
     fn expr(&mut self, x: &mut Expr) {
-        if self.done || matches!(x.kind, EKind::Raw(_)) {
+        if self.done || matches!(x.kind, EKind::Raw(_) | EKind::Mark(_)) {
             return;
         }
         // replace by the default literal of its type
@@ -372,6 +372,7 @@ impl<'a> Mut<'a> {
                 self.expr(b);
             }
             EKind::Neg(a) | EKind::Not(a) | EKind::Field(a, _) | EKind::TupleIdx(a, _) | EKind::MaybeJust(a) => self.expr(a),
+            EKind::Mark(_) => {}
             EKind::If(bs, d) => {
                 // drop a branch (keep at least one)
                 if bs.len() > 1 {
